@@ -1,7 +1,7 @@
 HOOK_COMMITS = ['50186a2']
-NOTES = ("Fix commits in /repo (genuine defects, see known_findings.json 'fixed'): f40c5b0, 05011a7, a30fe62, 1409e77, 9118133. Proof tiers: G = any arithmetic, S = any "
-         "arithmetic satisfying the IEEE contract FloatSpec, B = S with explicit rounding-error bounds, E = exact reals, R = instantiated on the proved rounding "
-         "arithmetic R64; see DESIGN.md §0/§6. ")
+NOTES = ("Fix commits in /repo (genuine defects, see known_findings.json 'fixed'): f40c5b0, 05011a7, a30fe62, 1409e77, 9118133. Proof tiers: G = any arithmetic, "
+         "S = any arithmetic satisfying the IEEE contract FloatSpec, B = S with explicit rounding-error bounds, E = exact reals, R = instantiated on the proved "
+         "rounding arithmetic R64; see DESIGN.md §0/§6. ")
 NOT_YET = {}
 S_NOTE = ("Theorems are about the Lean model; S-tier ones assume the FloatSpec contract (IEEE-754 binary64 semantics + glibc sanity bounds, proved to hold of "
           "exact real arithmetic AND of a rounding arithmetic - round-to-nearest on the binary64 grid with correctly rounded libm - in Spec/RealWitness.lean and "
@@ -24,9 +24,11 @@ TEXT = {
                   "blades; scalar sign law. Proved (B, rounded arithmetic): the raw total is within 8*2^-53 relative of p*pi_f/d in both orders of operations; for p>=0, "
                   "d>0 and either path blade*(pi_f/2)+rem is p*pi_f/d within 1e-10 + 8*2^-53 relative, hence blade = floor(2p/d) whenever p*pi_f/d is clear of a quarter- "
                   "turn boundary by that margin; any negative p/d on the general path gives X = p*pi_f/d plus a whole number of turns within 1e-10 + (14|X|+46)*2^-53 (a "
-                  "forward rotation in the same direction). Proved (E, exact reals): Angle::new(p,d) denotes p*pi/d modulo whole turns within 1e-10 for every real p,d "
-                  "and every path (fast, negative, general), a negative argument gives the forward rotation; new_from_cartesian has total arg(x+iy) and the Euclidean "
-                  "norm. Partial: 'at most one turn unless 2p/d is an integer' for negative p/d in rounded arithmetic (E-tier + oracle with exact rational floor(2p/d)). "),
+                  "forward rotation in the same direction). The Cartesian constructor (repaired, fix 9118133): for every finite non-zero vector with max(|x|,|y|) <= "
+                  "1e120 the magnitude is finite and within 11*2^-53 relative (+2^-1075) of sqrt(x^2+y^2), in both branches (B). Proved (E, exact reals): Angle::new(p,d) "
+                  "denotes p*pi/d modulo whole turns within 1e-10 for every real p,d and every path (fast, negative, general), a negative argument gives the forward "
+                  "rotation; new_from_cartesian has total arg(x+iy) and the Euclidean norm. Partial: 'at most one turn unless 2p/d is an integer' for negative p/d in "
+                  "rounded arithmetic (E-tier + oracle with exact rational floor(2p/d)). "),
          "note": S_NOTE},
  "C03": {"level": ("Proved for all canonical angles of any blade count: 12 spellings identical (G), bit-for-bit commutativity, zero identity, blade = sum with at most one "
                   "carry, invariant preserved, |T(a+b) - (T a + T b)| < 1e-10 + 1e-15 in rounded arithmetic (S); associativity of totals within twice the tolerance (at "
